@@ -374,7 +374,7 @@ func RuleK1K2(c *Ctx) {
 		v, _ := constInt64(k)
 		c.Check(int(v) == fc.bits, "K1", "const:Bits", k.Pos(), fmt.Sprintf("Bits = %d, modulus has %d bits", v, fc.bits), fmt.Sprintf("= %d", fc.bits))
 	}
-	c.FloorN("K1", 130, nlit, "large literals and exponent strings in package fr")
+	c.FloorN("K1", 100, nlit, "large literals and exponent strings in package fr") // 130 on the pinned tree; a literal repeated inline may be named once
 	c.FloorN("K2", 30, nalign, "aligned contexts (chains, cascades, literals, rounds)")
 }
 
@@ -791,6 +791,7 @@ func (c *Ctx) k4ReversalIn(fn *ssa.Function) (bool, string, bool) {
 		// i: 0, +1 ; optional mirror j: len(B)-1, -1
 		var iPhi, jPhi *ssa.Phi
 		var jInit ssa.Value
+		var rangeVar *ssa.BinOp
 		for _, ins := range l.Header.Instrs {
 			phi, isPhi := ins.(*ssa.Phi)
 			if !isPhi {
@@ -809,6 +810,10 @@ func (c *Ctx) k4ReversalIn(fn *ssa.Function) (bool, string, bool) {
 			case sb.Op == token.ADD:
 				if z, isZ := core.ConstInt(init); isZ && z == 0 {
 					iPhi = phi
+				}
+				// `for i := range e`: the counter starts at -1 and the body sees counter+1
+				if z, isZ := core.ConstInt(init); isZ && z == -1 {
+					iPhi, rangeVar = phi, sb
 				}
 			case sb.Op == token.SUB:
 				jPhi, jInit = phi, init
@@ -851,6 +856,10 @@ func (c *Ctx) k4ReversalIn(fn *ssa.Function) (bool, string, bool) {
 		}
 		leaf := func(v ssa.Value) (linN, bool) {
 			switch {
+			case rangeVar != nil && v == ssa.Value(rangeVar):
+				return linN{1, 0, 0, true}, true
+			case rangeVar != nil && v == ssa.Value(iPhi):
+				return linN{1, -1, 0, true}, true
 			case v == ssa.Value(iPhi):
 				return linN{1, 0, 0, true}, true
 			case jPhi != nil && v == ssa.Value(jPhi):
@@ -1199,4 +1208,211 @@ func RuleK8(c *Ctx) {
 		}
 	}
 	c.FloorN("K8", 3, n, "limb folds compared with a constant")
+}
+
+// ---------------------------------------------------------------------------
+// K9 — the three-way Euler criterion of fr.Element.Sqrt
+//
+// After the squarings, t = x^((q-1)/2) is 0, 1 or something else (-1). Sqrt must answer zero for 0, go on to the
+// Tonelli-Shanks loop for 1, and return nil otherwise. The decision slice that follows the squaring loop is walked
+// once per class, with the tests on t answered from the class: t.IsZero(), and the limb-wise comparison of t with
+// the Montgomery form of one (the constants SetOne stores).
+func RuleK9(c *Ctx) {
+	c.Rule("K9", "Euler criterion of fr.Element.Sqrt: the decision that follows the squarings of t = x^((q-1)/2), walked for t = 0, t = 1 and t = anything else with the tests on t (IsZero, limb-wise equality with the Montgomery one) answered from that class: 0 gives the receiver set to zero, 1 goes on to the Tonelli-Shanks loop, anything else gives nil")
+	fn := c.P.Fn("bandersnatch/fr", "Element", "Sqrt")
+	one := c.P.Fn("bandersnatch/fr", "Element", "SetOne")
+	if fn == nil || one == nil {
+		c.Unresolved("K9", "fr.Element.Sqrt / SetOne")
+		return
+	}
+	c.Saw(core.FnName(fn))
+	// the limbs of one
+	oneLimb := map[int64]uint64{}
+	core.AllInstrs(one, func(in ssa.Instruction) {
+		st, ok := in.(*ssa.Store)
+		if !ok {
+			return
+		}
+		ia, isIA := st.Addr.(*ssa.IndexAddr)
+		k, isK := st.Val.(*ssa.Const)
+		if !isIA || !isK || k.Value == nil {
+			return
+		}
+		if idx, okI := core.ConstInt(ia.Index); okI {
+			if v, exact := constant.Uint64Val(constant.ToInt(k.Value)); exact {
+				oneLimb[idx] = v
+			}
+		}
+	})
+	key := "Sqrt:criterion"
+	if len(oneLimb) != 4 {
+		c.Und("K9", key, fn.Pos(), "cannot read the four limbs of one from SetOne")
+		return
+	}
+	// the squaring loop: the first loop of the function, squaring one cell in place
+	loops := core.Loops(fn)
+	var first *core.Loop
+	for _, l := range loops {
+		if first == nil || l.Header.Index < first.Header.Index {
+			first = l
+		}
+	}
+	var tcell ssa.Value
+	if first != nil {
+		for b := range first.Blocks {
+			for _, in := range b.Instrs {
+				if call, ok := in.(*ssa.Call); ok && core.IsMethod(core.Callee(call.Common()), "bandersnatch/fr", "Element", "Square") && len(call.Call.Args) == 2 && call.Call.Args[0] == call.Call.Args[1] {
+					tcell = call.Call.Args[0]
+				}
+			}
+		}
+	}
+	var start *ssa.BasicBlock
+	if first != nil {
+		for _, s := range first.Header.Succs {
+			if !first.Blocks[s] {
+				start = s
+			}
+		}
+	}
+	if tcell == nil || start == nil {
+		c.Und("K9", key, fn.Pos(), "the squaring loop that computes the criterion is not recognised")
+		return
+	}
+	inLoop := func(b *ssa.BasicBlock) bool {
+		for _, l := range loops {
+			if l.Blocks[b] {
+				return true
+			}
+		}
+		return false
+	}
+	want := map[string]string{"zero": "zero", "one": "continues", "other": "nil"}
+	var bad []string
+	for _, class := range []string{"zero", "one", "other"} {
+		var absFor func(cell ssa.Value, top bool, depth int) core.Abstract
+		absFor = func(tcell ssa.Value, top bool, depth int) core.Abstract {
+			return func(v ssa.Value) (int64, bool) {
+				in, isIn := v.(ssa.Instruction)
+				if !isIn || in.Block() == nil || (top && inLoop(in.Block())) {
+					return 0, false // later tests are on other values of the same cell
+				}
+				// a boolean helper of the field package applied to t (IsOne, an exported predicate): walked on its own
+				if call, isCall := v.(*ssa.Call); isCall && depth < 2 {
+					f := core.Callee(call.Common())
+					if f != nil && core.InModule(f) && f.Name() != "IsZero" && len(call.Call.Args) == 1 && call.Call.Args[0] == tcell && len(f.Params) == 1 && len(f.Blocks) > 0 && len(f.Blocks) < 12 {
+						if ret, _, _ := core.WalkFrom(f.Blocks[0], absFor(f.Params[0], false, depth+1)); ret != nil && len(ret.Results) == 1 {
+							if k, ok := core.EvalInt(ret.Results[0], absFor(f.Params[0], false, depth+1)); ok {
+								return k, true
+							}
+						}
+					}
+				}
+				b2i := func(b bool) (int64, bool) {
+					if b {
+						return 1, true
+					}
+					return 0, true
+				}
+				switch x := v.(type) {
+				case *ssa.Call:
+					if core.IsMethod(core.Callee(x.Common()), "bandersnatch/fr", "Element", "IsZero") && len(x.Call.Args) == 1 && x.Call.Args[0] == tcell {
+						return b2i(class == "zero")
+					}
+					// t.Equal(&one) with a local that holds one (One() or SetOne, its only definition)
+					if core.IsMethod(core.Callee(x.Common()), "bandersnatch/fr", "Element", "Equal") && len(x.Call.Args) == 2 {
+						other := x.Call.Args[1]
+						if other == tcell {
+							other = x.Call.Args[0]
+						} else if x.Call.Args[0] != tcell {
+							return 0, false
+						}
+						if cell, isCell := other.(*ssa.Alloc); isCell {
+							holdsOne := false
+							nDefs := 0
+							for _, r := range core.Refs(cell) {
+								switch y := r.(type) {
+								case *ssa.Store:
+									if y.Addr == ssa.Value(cell) {
+										nDefs++
+										if oc, isCall := y.Val.(*ssa.Call); isCall && core.IsFunc(core.Callee(oc.Common()), "bandersnatch/fr", "One") {
+											holdsOne = true
+										}
+									}
+								case *ssa.Call:
+									if f := core.Callee(y.Common()); f != nil && f.Signature.Recv() != nil && len(y.Call.Args) > 0 && y.Call.Args[0] == ssa.Value(cell) && !gnarkObservers[f.Name()] && f.Name() != "Equal" {
+										nDefs++
+										if f.Name() == "SetOne" {
+											holdsOne = true
+										}
+									}
+								}
+							}
+							if holdsOne && nDefs == 1 {
+								return b2i(class == "one")
+							}
+						}
+					}
+				case *ssa.BinOp:
+					if x.Op != token.EQL && x.Op != token.NEQ {
+						return 0, false
+					}
+					ld, k := x.X, x.Y
+					if _, isC := ld.(*ssa.Const); isC {
+						ld, k = k, ld
+					}
+					u, isLd := ld.(*ssa.UnOp)
+					kc, isK := k.(*ssa.Const)
+					if !isLd || !isK || u.Op != token.MUL || kc.Value == nil {
+						return 0, false
+					}
+					ia, isIA := u.X.(*ssa.IndexAddr)
+					if !isIA || ia.X != tcell {
+						return 0, false
+					}
+					idx, okI := core.ConstInt(ia.Index)
+					kv, exact := constant.Uint64Val(constant.ToInt(kc.Value))
+					if !okI || !exact || oneLimb[idx] != kv {
+						return 0, false
+					}
+					return b2i((class == "one") == (x.Op == token.EQL))
+				}
+				return 0, false
+			}
+		}
+		abs := absFor(tcell, true, 0)
+		ret, path, why := core.WalkFrom(start, abs)
+		got := ""
+		switch {
+		case ret != nil && len(ret.Results) == 1 && core.IsNilConst(ret.Results[0]):
+			got = "nil"
+		case ret != nil && len(ret.Results) == 1:
+			if call, isCall := ret.Results[0].(*ssa.Call); isCall && core.IsMethod(core.Callee(call.Common()), "bandersnatch/fr", "Element", "SetZero") && len(call.Call.Args) == 1 && core.PathOf(call.Call.Args[0]) == "p:z" {
+				got = "zero"
+			} else {
+				got = "another result"
+			}
+		case ret == nil && len(path) > 0 && inLoop(path[len(path)-1]):
+			got = "continues"
+		default:
+			got = "undecided (" + why + ")"
+		}
+		if got != want[class] {
+			bad = append(bad, fmt.Sprintf("for a criterion value of class %q Sqrt %s, expected %s", class, describeK9(got), describeK9(want[class])))
+		}
+	}
+	c.Check(len(bad) == 0, "K9", key, fn.Pos(), strings.Join(bad, "; "), "0 -> receiver set to zero; 1 -> Tonelli-Shanks loop; otherwise -> nil")
+	c.FloorN("K9", 1, 1, "criterion decisions")
+}
+
+func describeK9(s string) string {
+	switch s {
+	case "nil":
+		return "returns nil"
+	case "zero":
+		return "returns the receiver set to zero"
+	case "continues":
+		return "goes on to the Tonelli-Shanks loop"
+	}
+	return s
 }
